@@ -390,12 +390,15 @@ func runC10(args []string) error {
 		if trunc >= 0 {
 			st := c.Steps[trunc]
 			gone := drv.SStep{K: "abort", S: st.S}.Coq(drv.SObs{})
-			for j := 0; j <= len(st.Ops); j++ {
-				if j == 0 {
-					alts = append(alts, drv.CoqList([]string{gone}))
-				} else {
-					alts = append(alts, drv.CoqList([]string{drv.SStep{K: "ops", S: st.S, Ops: st.Ops[:j]}.Coq(drv.SObs{}), gone}))
-				}
+			// Cut responses were delivered, the next write fails: the operation whose response that was has been
+			// carried out, and the one after it may have been (the reader hands each result to the writer before it
+			// goes on); nothing behind that is carried out for a client that is gone
+			lo, hi := st.Cut+1, st.Cut+2
+			if hi > len(st.Ops) {
+				hi = len(st.Ops)
+			}
+			for j := lo; j <= hi; j++ {
+				alts = append(alts, drv.CoqList([]string{drv.SStep{K: "ops", S: st.S, Ops: st.Ops[:j]}.Coq(drv.SObs{}), gone}))
 			}
 			res.Stats["midbatch_cases"]++
 		}
